@@ -191,4 +191,73 @@ theorem bypass_inherited (root : ReqView) (path : List (Bool × Bool × Bool)) (
     unfold ReqView.bypass
     rw [ht]; rfl
 
+/-! ### the store -/
+
+theorem Store.get_mem {s : Store} {k : Nat} {e : Entry} (h : s.get k = some e) : ∃ k', (k', e) ∈ s := by
+  unfold Store.get at h
+  cases hf : s.find? (fun x => x.1 == k) with
+  | none => rw [hf] at h; cases h
+  | some x =>
+    rw [hf] at h
+    simp only [Option.map_some, Option.some.injEq] at h
+    exact ⟨x.1, by have := List.mem_of_find?_eq_some hf; rw [← h]; exact this⟩
+
+theorem Store.mem_put {s : Store} {k : Nat} {e : Entry} {x : Nat × Entry} (h : x ∈ s.put k e) :
+    x = (k, e) ∨ x ∈ s := by
+  unfold Store.put at h
+  rcases List.mem_cons.mp h with h | h
+  · exact Or.inl h
+  · exact Or.inr (List.mem_filter.mp h).1
+
+theorem Store.mem_del {s : Store} {k : Nat} {x : Nat × Entry} (h : x ∈ s.del k) : x ∈ s :=
+  (List.mem_filter.mp h).1
+
+/-- whatever the hit ladder returns sits in the store function it was given. -/
+theorem serveLookup_from_store {H : Hash} {store : Nat → Option Entry} {qid : Nat} {cd : Bool}
+    {cs : Option Prefix} {e : Entry} (h : serveLookup H store qid cd cs = some e) : ∃ k, store k = some e := by
+  have shared : ∀ e', (match store (H qid cd none) with
+        | some e => if entryMatches e qid cd none = true then some e else none
+        | none => none) = some e' → ∃ k, store k = some e' := by
+    intro e' h'
+    cases hs : store (H qid cd none) with
+    | none => rw [hs] at h'; simp at h'
+    | some e0 =>
+      rw [hs] at h'
+      simp only at h'
+      split at h'
+      · simp only [Option.some.injEq] at h'; subst h'; exact ⟨_, hs⟩
+      · cases h'
+  unfold serveLookup at h
+  simp only at h
+  cases cs with
+  | none => exact shared e h
+  | some cp =>
+    simp only at h
+    cases hl : scopedLookup H store qid cd cp with
+    | none => rw [hl] at h; exact shared e h
+    | some r =>
+      obtain ⟨e1, sc1⟩ := r
+      rw [hl] at h
+      simp only at h
+      split at h
+      · simp only [Option.some.injEq] at h
+        subst h
+        unfold scopedLookup at hl
+        exact ⟨_, (scopedProbe_spec H store qid cd cp.fam cp.addr cp.bits e1 sc1 hl).2.2.2.2.2⟩
+      · exact shared e h
+
+/-! ### wire decoding, several OPT records -/
+
+theorem padTo_length (n : Nat) (bs : List Nat) : (padTo n bs).length = n := by
+  unfold padTo
+  simp [List.length_take, List.length_append, List.length_replicate]
+
+theorem effectiveOpts_append (pre : List (List Opt)) (l : List Opt) : effectiveOpts (pre ++ [l]) = some l := by
+  induction pre with
+  | nil => rfl
+  | cons a t ih =>
+    cases t with
+    | nil => rfl
+    | cons b t' => simpa [effectiveOpts] using ih
+
 end SdnsVerif.Lemmas.Ecs
